@@ -37,11 +37,7 @@ def corpus():
     yield with_cc({"op": "tree", "_tag": "flat", "tree": ["list", True, 2, None, 1, ["", ") ", 1], [["text", ""], ["text", "a"], ["text", ""]]], "ops": [["render", 12]]})
 
 
-def compare(case, impl, model):
-    for a, b in zip(impl, model):
-        if b.get("err") == "OutOfDomain": return None
-        if a != b: return "implementation %r / model %r" % (a, b)
-    return None
+compare = tree_compare
 
 
 def monitor(case, obs):
@@ -50,7 +46,7 @@ def monitor(case, obs):
     if case.get("_tag") != "flat":
         # nested / forced-width containers: items never overlap => every non-blank character of every item's own rendering and of every label is shown:
         # the multiset of non-blank characters of the container equals the sum over its items (rendered at the width the container gives them) and labels
-        t = case["tree"]; o = obs[-1]
+        t = expand_refs(case["tree"]); o = obs[-1]
         if t[0] != "list" or "err" in o or t[2] == 0: return None
         _, cm, k, cwf, sp, kp, items = t; w = case["ops"][-1][1]
         used = cwf if cwf is not None else int((w - (k - 1) * sp) / k)
